@@ -2,3 +2,4 @@ pub mod alloc;
 pub mod filters;
 pub mod hashers;
 pub mod rng;
+pub mod td;
